@@ -879,6 +879,10 @@ def c16(w):
     if not go:
         return f
     after = [x for x in w.evs if x.i > go[-1]]
+    # the probe block ends where the epilogue starts deleting
+    first_del = [x.i for x in after if x.op in ("dsub", "dtopic")]
+    if first_del:
+        after = [x for x in after if x.i < first_del[0]]
     listed = None
     existing = None
     topic_alive = True
@@ -918,6 +922,11 @@ def c16(w):
     return f
 
 
+GRPC_ERRORS = {"invalid_argument", "not_found", "failed_precondition", "aborted", "internal", "unknown", "unavailable",
+               "unimplemented", "deadline_exceeded", "resource_exhausted", "out_of_range", "permission_denied",
+               "unauthenticated", "data_loss", "cancelled"}
+
+
 def _linearizable(ops, present0):
     """Wing-Gong search for one name: ops = [(b, e, kind, result)], kind in create/delete/get,
     result True = OK, False = ALREADY_EXISTS (create) / NOT_FOUND (delete, get). Any other result
@@ -936,6 +945,8 @@ def _linearizable(ops, present0):
             good = True
             for i in order:
                 b, e, kind, res = ops[i]
+                if res == "noeffect":
+                    continue
                 if res is None:
                     if kind == "create" and took.get(i):
                         if present:
@@ -997,10 +1008,14 @@ def c10_conc(w):
             res = True
         elif (kind == "create" and code == "already_exists") or (kind != "create" and code == "not_found"):
             res = False
+        elif kind == "create" and code in GRPC_ERRORS:
+            # "create succeeds exactly when ... (else an error), with nothing created": a create
+            # that was ANSWERED with an error status must not have taken effect
+            res = "noeffect"
         else:
-            res = None
+            res = None            # dropped / hung calls, failed deletes: may or may not have taken effect
         if e.op == "csub" and code == "not_found":
-            res = None            # topic missing: says nothing about the subscription name
+            res = "noeffect"      # topic missing: nothing created
         names.setdefault(key, []).append((e.b, e.e, kind, res))
     for key, ops in names.items():
         if not _linearizable(ops, False):
